@@ -646,8 +646,12 @@ def corr_crossing(ctx: Ctx, drv):
 
 
 def run(ctx: Ctx):
+    from ..translate import gen as _gen
+    _gen.regenerate(ctx, ["HopAlpha"])
     leanproj.check_theorems(ctx, MODULE, THEOREMS)
-    from .registry import THEOREMS_C17B, THEOREMS_C17C
+    from .registry import THEOREMS_C17B, THEOREMS_C17C, THEOREMS_SCALARTIE
+    # translator tie: the scalar part of the hop velocity rescaling, as it stands in the source, is the model's
+    leanproj.check_theorems(ctx, "PyseqmVerif.Properties.ScalarTie", [t for t in THEOREMS_SCALARTIE if "Alpha" in t])
     leanproj.check_theorems(ctx, "PyseqmVerif.Properties.C17b", THEOREMS_C17B)
     leanproj.check_theorems(ctx, "PyseqmVerif.Properties.C17c", THEOREMS_C17C)
     drv = leanproj.Driver()
